@@ -57,10 +57,58 @@ def mutator_sessions(ctx, cfgs):
     ctx.count("family", "in-place mutators on dictionaries (oracle only)", len(tasks))
 
 
+NOSUB = ["one/nosub-hello~_x", "one/nosub-hello~_x/ident", "one/nosub-hello~_x/add-1/cat-a", "hello-y/nosub-one~Iadd~_2/ident"]
+# a command that evaluates a sub-query ON a value (evaluate_on from inside a command): what is computed on the injected value must not
+# become retrievable under the plain text of that sub-query
+SCENARIOS = [("nosub", NOSUB, NOSUB, "caching was switched off by the command 'nosub' at or to the left of its last step"),
+             ("subon", ["one/subon-add~_3", "one/subon-add~_3~Icat~_a", "num-5/subon-cat~_z/ident"], ["add-3", "add-3/cat-a", "cat-z"],
+              "it was only ever evaluated on an injected input value (evaluate_on from inside the command 'subon')")]
+
+
+def nosub_task(ci):
+    """a command that switches caching off and then evaluates a sub-query on its own context: nothing at or downstream of it may become
+    retrievable (oracle only: the combined effect is outside the model's command effects)"""
+    import shutil
+    from liquer.context import get_context
+    tmp = EP.scratch()
+    bad = []
+    try:
+        name, factory, _ = EP.cache_configs(tmp)[ci]
+        cache = factory()
+        for sname, qs, keys, why in SCENARIOS:
+            for rnd in (1, 2):
+                for q in qs:
+                    EP.set_global(cache, {})
+                    try:
+                        get_context().evaluate(q)
+                    except Exception:
+                        pass
+                    for k in keys:
+                        try:
+                            st = cache.get(k)
+                        except Exception:
+                            st = None
+                        if st is not None and st.data is not None:
+                            bad.append(("not-admitted-%s:%s:%s" % (sname, name, k), "%s: after evaluating %r (round %d) cache.get(%r) serves data %r although %s" % (
+                                name, q, rnd, k, EP.vocab.canon(st.data), why)))
+        return bad
+    finally:
+        shutil.rmtree(tmp, ignore_errors=True)
+
+
+def nosub_family(ctx, cfgs):
+    for ci, bad in enumerate(EP.common.pmap(nosub_task, list(range(len(cfgs))))):
+        ctx.case("nosub|%s" % cfgs[ci][0])
+        ctx.count("family", "caching switched off then a sub-evaluation / evaluate_on from inside a command (oracle only)")
+        for key, text in bad[:1]:
+            ctx.violation(key, text, dict(kind="nosub", config=cfgs[ci][0]))
+
+
 def run(ctx):
     per = 120 if ctx.tier == "thorough" else 30
     cfgs, tasks = gen_sessions(ctx, per)
     mutator_sessions(ctx, cfgs)
+    nosub_family(ctx, cfgs)
     results = EP.common.pmap(EP.run_session_task, tasks)
     judge(ctx, cfgs, tasks, results)
     sessions = [(t[1], t[2]) for t in tasks]
@@ -78,6 +126,10 @@ def search(ctx, broken, disagreements):
 
 
 def replay(ctx, case):
+    if case.get("kind") == "nosub":
+        cfgs = EP.cache_configs("/nonexistent")
+        bad = nosub_task([c[0] for c in cfgs].index(case["config"]))
+        return bad[0][1] if bad else None
     cfgs = EP.cache_configs("/nonexistent")
     ci = [c[0] for c in cfgs].index(case["config"])
     ops = [tuple(o) if o[0] != "XD" else (o[0], o[1], dict(o[2])) for o in case["ops"]]
